@@ -250,6 +250,12 @@ def strace_run(hexe, mode, script, workdir):
 
 
 def cleanup_tree(d):
+    try:                                      # a tmpfs of the write-fault stage that outlived its process
+        below = [l.split()[1] for l in open("/proc/mounts") if l.split()[1].startswith(d.rstrip("/") + "/")]
+    except OSError:
+        below = []
+    for m in sorted(below, reverse=True):
+        subprocess.run(["umount", "-l", m.replace("\\040", " ")], stdout=subprocess.DEVNULL, stderr=subprocess.DEVNULL)
     subprocess.run(["chattr", "-R", "-i", d], stdout=subprocess.DEVNULL, stderr=subprocess.DEVNULL)
     shutil.rmtree(d, ignore_errors=True)
 
@@ -292,6 +298,50 @@ def run_trace_model(mexe, inp):
         if op in res:
             res[op][int(a[0])] = r
     return res, ""
+
+
+# ------------------------------------------------------------------------------------------
+# write faults: the harness' -mode=wfault (a process of its own, see harness/fs/wfault.go)
+# ------------------------------------------------------------------------------------------
+
+def wfault_stage(res, hexe, workdir, seed, tier, wf, notes):
+    """uploads through the real LocalBackend / durable.WriteFile while write(2) on the temporary
+    file fails partway (RLIMIT_FSIZE with SIGXFSZ ignored; a full tmpfs). Monitors only: the Coq
+    system-call model has no failing write on a regular file."""
+    n = 60 if tier == "quick" else 1500
+    rc, out, dt = L.run([hexe, "-mode=wfault", "-seed=%d" % seed, "-n=%d" % n, "-scratch=" + workdir], timeout=900)
+    wf["wall_s"] = round(dt, 2)
+    if rc != 0:
+        p = L.write_replay(PROP, "wfault_failure.txt", "write-fault mode of the harness failed (rc=%d)\n%s" % (rc, out[-6000:]))
+        res.violation(p, "write-fault stage did not run to completion", no_input=True)
+        return []
+    mons = [l for l in out.split("\n") if l.startswith("mon_") and "|=>|" in l]
+    for l in out.split("\n"):
+        f = l.split("|")
+        if f[0] == "stat" and len(f) == 3:
+            wf["stats"][f[1]] = int(f[2])
+        elif f[0] == "obs" and len(f) >= 3:
+            wf["observations"][f[1]] = wf["observations"].get(f[1], 0) + 1
+            if wf["observations"][f[1]] == 1:
+                notes.append("write-fault stage: %s: %s" % (f[1], "|".join(f[2:])[:300]))
+    bad, seen = [], set()
+    for l in mons:
+        op, args, r = D.split_line(l)
+        wf["monitors"][op] = wf["monitors"].get(op, 0) + 1
+        if r != "holds":
+            wf["monitor_failures"] += 1
+            if op not in seen:                # one replay per monitor, the first (scripted) case
+                seen.add(op); bad.append(l)
+    for l in bad[:4]:
+        op, args, r = D.split_line(l)
+        p = L.write_replay(PROP, "monitor_%s_%s.txt" % (op, L.digest(l)),
+                           "property monitor %s failed on the implementation\n"
+                           "case fields: api|fault|limit(bytes let through)|key(hex)|previous object|previous immutable|data|immutable|neighbours|outcome of the faulted call\n"
+                           "input (harness line, replay with ./check %s --replay <this file>):\n%s\n" % (op, PROP, l))
+        res.violation(p, "monitor %s: %s" % (op, r[:260]))
+    if not wf["stats"].get("failed_operations") and not bad:
+        notes.append("write-fault stage: no operation failed (fault injection ineffective here?): monitors mon_wfault_intact/tmp/retry were vacuous in this run")
+    return mons
 
 
 # ------------------------------------------------------------------------------------------
@@ -352,6 +402,7 @@ TRUSTED = [
     "the immutable inode flag is best effort (internal/immutable ignores the ioctl result): modelled as a boolean capability reported by the harness probe; durability of the flag itself and other inode flags are not modelled (note: FS_IOC_SETFLAGS with only FS_IMMUTABLE_FL clears all other flags of the inode, e.g. ext4's extent flag)",
     "no symbolic links inside (or as a component of) the configured directory: path components resolve literally",
     "the strace parser of checks/c13.py (merging of unfinished/resumed lines, C-string unescaping, descriptor-to-path resolution; cross-checked against the model's own rendering of the observed trace)",
+    "write-fault stage: the kernel's RLIMIT_FSIZE / tmpfs-full behaviour stands in for every write(2) error (disk full, quota, EIO) at that point of the system-call sequence; the injection is probed independently of the code under test (a plain os.WriteFile must fail with EFBIG after exactly `limit` bytes)",
     "Go harness harness/fs (generators, error classes, digest = length + adler32 over the whole contents up to 64 KiB and over the first and last 32 KiB above; the monitors compare whole contents)",
     "model FS/Model.v is a hand transcription of local.go / durable/path.go / immutable_linux.go and of os.Rename, os.Remove, os.CreateTemp (retry loop abstracted: the suffix of the successful attempt is an oracle), filepath.Localize, fs.ValidPath, utf8.ValidString of Go 1.25; directories are identified by their path (they are never renamed by this code); rmdir followed by mkdir of the same path before a sync conflates the two directories' durable entries (only reachable through Discard of a directory key)",
 ]
@@ -372,6 +423,8 @@ def main(tier, seed, replay):
     tr = {"scripts": 0, "ops": 0, "calls": 0, "matching_ops": 0, "monitor_ok": 0, "crash_monitor_failures": 0,
           "mutants": 0, "mutants_detected": 0, "candidate": None, "unmodelled_calls": 0}
     notes = []
+    wf = {"stats": {}, "monitors": {}, "monitor_failures": 0, "observations": {}, "wall_s": 0}
+    wmons = []
     workdir = tempfile.mkdtemp(prefix="c13-", dir=L.BUILD)
     try:
         if hexe and mexe:
@@ -380,6 +433,7 @@ def main(tier, seed, replay):
             args = ["-seed=%d" % seed, "-n=%d" % n, "-scratch=" + workdir] + (["-big"] if tier == "thorough" else [])
             extra = []
             if replay:
+                replay = os.path.abspath(replay)
                 args = ["-mode=replay", "-file=" + replay, "-scratch=" + workdir]
             corpus = os.path.join(L.VERIF, "corpus", PROP)
             st, work, mlines = D.differential(res, PROP, hexe, args, mexe, extra_inputs=extra)
@@ -393,6 +447,9 @@ def main(tier, seed, replay):
             # ---- (b) system-call trace validation + crash monitor ----
             if not replay:
                 trace_stage(res, hexe, mexe, workdir, tr, notes, tier)
+        if hexe and not replay:
+            # ---- (d) write faults against the real code (monitors only; needs no model) ----
+            wmons = wfault_stage(res, hexe, workdir, seed, tier, wf, notes)
     finally:
         cleanup_tree(workdir)
     if not ok and not res.violations:
@@ -411,14 +468,15 @@ def main(tier, seed, replay):
             c = r.split("|")[0]
             keyclasses["up:imm=%s:%s" % (a[2], c)] = keyclasses.get("up:imm=%s:%s" % (a[2], c), 0) + 1
     cov.update({
-        "evaluations": st.get("lines", 0) + tr["ops"], "distinct_nontrivial": nontrivial,
-        "rule": "one evaluation = one backend operation (Upload/Fetch/Discard) executed by the real LocalBackend in a scratch directory and replayed by the extracted model (result class + the whole resulting directory tree with content digests must be identical), or one monitor run, or one traced operation; scripted part: new file, overwrite, immutable same/different/empty/3 MiB, chunk-boundary sizes, nested new directories, file-vs-directory conflicts, mutable-over-immutable, key syntax (.., absolute, a//b, trailing slash, NUL, invalid UTF-8, backslash, 200/255/256-byte names, \".\"), missing backend directory; generated part: structured keys with collisions, malformed/mutated keys, contents related to earlier contents; non-trivial = not a reset and not rejected as a bad key",
+        "evaluations": st.get("lines", 0) + tr["ops"] + len(wmons), "distinct_nontrivial": nontrivial + len(set(wmons)),
+        "rule": "one evaluation = one backend operation (Upload/Fetch/Discard) executed by the real LocalBackend in a scratch directory and replayed by the extracted model (result class + the whole resulting directory tree with content digests must be identical), or one monitor run, or one traced operation, or one monitor verdict on an upload executed with an injected write fault; scripted part: new file, overwrite, immutable same/different/empty/3 MiB, chunk-boundary sizes, nested new directories, file-vs-directory conflicts, mutable-over-immutable, key syntax (.., absolute, a//b, trailing slash, NUL, invalid UTF-8, backslash, 200/255/256-byte names, \".\"), missing backend directory; generated part: structured keys with collisions, malformed/mutated keys, contents related to earlier contents; non-trivial = not a reset and not rejected as a bad key",
         "traces_validated_against_impl": tr["matching_ops"], "distinct_cases": distinct,
         "impl_property_monitors": st.get("monitors", 0), "monitor_failures": st.get("monitor_failures", 0),
         "model_impl_differences": st.get("diffs", 0), "vm_compute_crosschecked_groups": ncross,
         "op_distribution": st.get("ops", {}), "upload_result_distribution": keyclasses,
         "result_distribution": st.get("results", {}),
         "syscall_trace_validation": tr,
+        "write_fault_injection": dict(wf, what="LocalBackend.Upload / durable.WriteFile executed by the real code while write(2) on the temporary file fails after `limit` bytes (RLIMIT_FSIZE + ignored SIGXFSZ: EFBIG; tmpfs of `limit` bytes in a private mount namespace: ENOSPC); limits 0, 1, size-1, page multiples, random, and controls with no fault; sizes 1 byte .. 3 MiB; mutable overwrite / first immutable upload / new nested directories / immutable object present; monitors only (FS/Model.v has no failing write on a regular file: its write_file propagates a write error, but step never produces one), so these cases are not replayed by the model"),
         "samples": [l[:300] for l in work[1:4]] + [l[:300] for l in work if l.startswith("discard")][:1] + cov.get("theorems", [])[:2],
         "trusted_base": TRUSTED + ["repo " + L.repo_rev()],
     })
